@@ -61,6 +61,63 @@ def opSpawn : Op := do
   let (cs, s') := s.spawn k
   pure (cs.flatMap (fun c => oN c.spawnKey.length :: c.spawnKey.map oN) ++ [oN s'.nSpawned])
 
+/-- `normalgen n k pos.. mom.. sigma.. entropy keylen key.. nspawned ndraws [zx.. zk..]×ndraws`
+    → number yielded, then per yielded sample `keylen key.. x.. k..`, then the parent's spawn counter -/
+def opNormalGen : Op := do
+  let n ← nat
+  let k ← nat
+  let pos ← vec n
+  let mom ← vec n
+  let sg ← vec n
+  let e ← nat
+  let kl ← nat
+  let key ← listOf kl nat
+  let ns ← nat
+  let nd ← nat
+  let mut ds : Array ((Fin n → Float) × (Fin n → Float)) := #[]
+  for _ in [0:nd] do
+    let zx ← vec n
+    let zk ← vec n
+    ds := ds.push (zx, zk)
+  let s : SeedSeq := { entropy := e, spawnKey := key, nSpawned := ns }
+  let (ys, s') := normalGen pos mom sg ds.toList s k
+  pure ([oN ys.length] ++ ys.flatMap (fun y => (oN y.2.spawnKey.length :: y.2.spawnKey.map oN) ++ oVec y.1.1 ++ oVec y.1.2)
+        ++ [oN s'.nSpawned])
+
+/-- `constgen entropy keylen key.. nspawned k` → number yielded, per sample `keylen key..`, the parent's spawn counter -/
+def opConstGen : Op := do
+  let e ← nat
+  let kl ← nat
+  let key ← listOf kl nat
+  let ns ← nat
+  let k ← nat
+  let s : SeedSeq := { entropy := e, spawnKey := key, nSpawned := ns }
+  let (ys, s') := constGen () s k
+  pure ([oN ys.length] ++ ys.flatMap (fun y => oN y.2.spawnKey.length :: y.2.spawnKey.map oN) ++ [oN s'.nSpawned])
+
+/-- `boltzgen scale n k x.. m.. kt entropy keylen key.. nspawned ndraws [z..]×ndraws`
+    → number yielded, per sample `keylen key.. p..`, the parent's spawn counter -/
+def opBoltzGen : Op := do
+  let scale ← bool
+  let n ← nat
+  let k ← nat
+  let x ← vec n
+  let m ← vec n
+  let kt ← flt
+  let e ← nat
+  let kl ← nat
+  let key ← listOf kl nat
+  let ns ← nat
+  let nd ← nat
+  let mut ds : Array (Fin n → Float) := #[]
+  for _ in [0:nd] do
+    let z ← vec n
+    ds := ds.push z
+  let s : SeedSeq := { entropy := e, spawnKey := key, nSpawned := ns }
+  let (ys, s') := boltzmannGen x m kt scale ds.toList s k
+  pure ([oN ys.length] ++ ys.flatMap (fun y => (oN y.2.spawnKey.length :: y.2.spawnKey.map oN) ++ oVec y.1.2)
+        ++ [oN s'.nSpawned])
+
 /-- `ehrenfest N n rho(N×N cx) H(N×N) F(N×n) FM(N×N×n)` → potential, pinned force (n), spec force (n) -/
 def opEhrenfest : Op := do
   let N ← nat
@@ -73,7 +130,7 @@ def opEhrenfest : Op := do
   pure ([oF (ehrenfestPotential rho H)] ++ oVec (ehrenfestForcePinned rho F) ++ oVec (ehrenfestForceSpec rho FM))
 
 def tableC : List (String × Op) :=
-  [("batch", opBatch), ("boltz", opBoltz), ("normal", opNormal), ("spawn", opSpawn),
+  [("batch", opBatch), ("boltz", opBoltz), ("normal", opNormal), ("spawn", opSpawn), ("normalgen", opNormalGen), ("constgen", opConstGen), ("boltzgen", opBoltzGen),
    ("ehrenfest", opEhrenfest)]
 
 end Mud.Exec
